@@ -713,6 +713,63 @@ type joutMethod struct {
 	setsInField      bool
 }
 
+// localConstExpr: e names a local variable that is given a value exactly once,
+// by a := whose right-hand side is a constant (possibly converted: the form the
+// de-extraction pre-pass binds a helper's parameters in) - the constant
+// expression; otherwise e itself.
+func localConstExpr(info *types.Info, body *ast.BlockStmt, e ast.Expr) ast.Expr {
+	id, ok := ast.Unparen(e).(*ast.Ident)
+	if !ok {
+		return e
+	}
+	v, ok := info.Uses[id].(*types.Var)
+	if !ok {
+		return e
+	}
+	var rhs ast.Expr
+	n := 0
+	ast.Inspect(body, func(x ast.Node) bool {
+		switch s := x.(type) {
+		case *ast.AssignStmt:
+			for i, l := range s.Lhs {
+				if lid, ok := l.(*ast.Ident); ok && (info.Defs[lid] == types.Object(v) || info.Uses[lid] == types.Object(v)) {
+					n++
+					if len(s.Lhs) == len(s.Rhs) {
+						rhs = s.Rhs[i]
+					}
+				}
+			}
+		case *ast.IncDecStmt:
+			if lid, ok := s.X.(*ast.Ident); ok && info.Uses[lid] == types.Object(v) {
+				n += 2
+			}
+		case *ast.UnaryExpr:
+			if lid, ok := s.X.(*ast.Ident); ok && s.Op == token.AND && info.Uses[lid] == types.Object(v) {
+				n += 2
+			}
+		}
+		return true
+	})
+	if n != 1 || rhs == nil {
+		return e
+	}
+	for {
+		rhs = ast.Unparen(rhs)
+		call, ok := rhs.(*ast.CallExpr)
+		if !ok || len(call.Args) != 1 {
+			break
+		}
+		if tv, ok := info.Types[call.Fun]; !ok || !tv.IsType() {
+			break
+		}
+		rhs = call.Args[0]
+	}
+	if constOf(info, rhs) == nil {
+		return e
+	}
+	return rhs
+}
+
 func analyseJOut(p *Prog, fn *fnRef) joutMethod {
 	info := fn.Pkg.TypesInfo
 	recv := recvObj(info, fn.Decl)
@@ -736,6 +793,7 @@ func analyseJOut(p *Prog, fn *fnRef) joutMethod {
 					switch sel.Sel.Name {
 					case "data":
 						for _, a := range x.Args[1:] {
+							a = localConstExpr(info, fn.Decl.Body, a)
 							if v := constOf(info, a); v != nil {
 								if v.Kind() == constant.String {
 									m.appends = append(m.appends, constant.StringVal(v))
@@ -748,7 +806,7 @@ func analyseJOut(p *Prog, fn *fnRef) joutMethod {
 						m.pushes++
 						ast.Inspect(x.Args[1], func(y ast.Node) bool {
 							if kv, ok := y.(*ast.KeyValueExpr); ok {
-								m.pushState = constName(info, kv.Value)
+								m.pushState = constName(info, localConstExpr(info, fn.Decl.Body, kv.Value))
 							}
 							return true
 						})
